@@ -699,6 +699,9 @@ End Ctor.
 Definition mi_has (i : nat) (mi : list idx) : bool :=
   existsb (fun x => match x with Free j => Nat.eqb j i | Fixed _ => false end) mi.
 Definition mem (i : nat) (l : list nat) : bool := existsb (Nat.eqb i) l.
+(* none of the indices bound by jj is among the free indices l *)
+Definition disjointb (jj : list (nat * nat)) (l : list (nat * nat)) : bool :=
+  forallb (fun p => negb (mem (fst p) (ids l))) jj.
 
 (* rep = dict(zip(jj, multiindex)); later entries win, like Python's dict and like [upds] *)
 Fixpoint lookup (k : nat) (jj : list (nat * nat)) (mi : list idx) (d : option idx) : option idx :=
@@ -1045,6 +1048,11 @@ Variable ffold : nat -> expr -> expr -> expr.
    fx_ct: ComponentTensor._simplify_indexed uses rep.get(kk[0]) instead of rep[kk[0]];
    fx_lt: ListTensor.__new__ requires each row to bind exactly its trailing indices *)
 Variables fx_is fx_ct fx_lt : bool.
+(* fx_cn: ComponentTensor.__new__ keeps as_tensor(A[ii], ii) when A has one of the ii as a free index
+          (/repo a0002a9);  fx_at: the same guard in the function as_tensor();
+   fx_cs: ComponentTensor._simplify_indexed re-indexes C / selects a list-tensor entry only when C does not
+          depend on the bound indices *)
+Variables fx_cn fx_at fx_cs : bool.
 
 Fixpoint mk_index_sum (fuel : nat) (a : expr) (i d : nat) : option expr :=
   match fuel with
@@ -1107,6 +1115,7 @@ Fixpoint mk_indexed (fuel : nat) (a : expr) (mi : list idx) : option expr :=
                       match lookup k jj mi None with
                       | None => if fx_ct then Some (B, jj, mi) else None   (* KeyError: rep[kk[0]] *)
                       | Some (Fixed n) =>
+                          if fx_cs && mem k (ids (fidx (ListTensor es))) then Some (B, jj, mi) else
                           match nth_error es n with
                           | Some sub =>
                               let jj' := filter (fun p => negb (Nat.eqb (fst p) k)) jj in
@@ -1124,7 +1133,8 @@ Fixpoint mk_indexed (fuel : nat) (a : expr) (mi : list idx) : option expr :=
             | Some (B', jj', mi2) =>
                 match B' with
                 | Indexed C kk =>
-                    if all_in jj' kk then mk_indexed fuel' C (map (subst_idx jj' mi2) kk)
+                    if all_in jj' kk && (negb fx_cs || disjointb jj' (fidx C))
+                    then mk_indexed fuel' C (map (subst_idx jj' mi2) kk)
                     else Some (Indexed a mi)
                 | _ => Some (Indexed a mi)
                 end
@@ -1143,8 +1153,22 @@ Definition mk_component_tensor (a : expr) (jj : list (nat * nat)) : option expr 
   | Zero _ fi =>
       if forallb (fun p => mem (fst p) (ids fi)) jj
       then Some (Zero (map snd jj) (fold_left (fun acc p => fi_remove (fst p) acc) jj fi)) else None
-  | Indexed A0 ii => if mi_eq_dec ii (map Free (ids jj)) then Some A0 else ct_generic a jj
+  | Indexed A0 ii =>
+      if (if mi_eq_dec ii (map Free (ids jj)) then true else false) && (negb fx_cn || disjointb jj (fidx A0))
+      then Some A0 else ct_generic a jj
   | _ => ct_generic a jj
+  end.
+
+(* the function as_tensor(expr, indices) has its own copy of the shortcut *)
+Definition mk_as_tensor (a : expr) (jj : list (nat * nat)) : option expr :=
+  match jj with
+  | [] => Some a
+  | _ => match a with
+         | Indexed A0 ii =>
+             if (if mi_eq_dec ii (map Free (ids jj)) then true else false) && (negb fx_at || disjointb jj (fidx A0))
+             then Some A0 else mk_component_tensor a jj
+         | _ => mk_component_tensor a jj
+         end
   end.
 
 (* ListTensor.__new__ (the shortcut "[v[j,0],...,v[j,n-1]] -> v[j,:]" only for j = ()) *)
